@@ -216,20 +216,35 @@ class DataPath:
         return cls(*spec_resolved_parts)
 
     def to_part_specs(self):
+        """Get part specs from which `from_part_specs` rebuilds an equal path; raise if this
+        path cannot be written as part specs."""
+        if self.DATUM_TYPE.value or self.MULTI_TYPE.value or self.source_data is not None:
+            raise RuntimeError(
+                f"Cannot convert a path with a DATUM_TYPE, a MULTI_TYPE or bound source "
+                f"data to part specs: {self!r}."
+            )
         parts = []
-        for i in self.parts:
-            try:
-                part_spec = i.condition.callable.kwargs["value"]
-            except KeyError:
-                if isinstance(i, MapOrListValue):
-                    part_spec = i.list_condition.callable.kwargs["value"]
-                elif i.CONTAINER_TYPE is Container.MAP:
-                    part_spec = {"type": "map_value"}
-                elif i.CONTAINER_TYPE is Container.LIST:
-                    part_spec = {"type": "list_value"}
-                else:
-                    raise RuntimeError(f"Cannot convert part to a part spec: {i!r}.")
+        for part, simple in zip(self.parts, self.simplify()):
+            if part == MapValue():
+                part_spec = {"type": "map_value"}
+            elif part == ListValue():
+                part_spec = {"type": "list_value"}
+            elif part == MapOrListValue():
+                part_spec = {"type": "map_or_list_value"}
+            elif (
+                isinstance(simple, (str, float, int))
+                and DataPath(simple).parts[0] == part
+            ):
+                # a plain key / index, from which exactly this part is rebuilt
+                part_spec = simple
+            else:
+                raise RuntimeError(f"Cannot convert part to a part spec: {part!r}.")
             parts.append(part_spec)
+        if not self.is_concrete and not any(isinstance(i, dict) for i in parts):
+            # plain keys / indices only would be rebuilt as a concrete path
+            raise RuntimeError(
+                f"Cannot convert a non-concrete path of plain keys to part specs: {self!r}."
+            )
         return parts
 
     @classmethod
